@@ -4,6 +4,7 @@ import Driver.VmStep
 import Marwood.Vm.Eval
 import Driver.VmCompile
 import Driver.VmVerify
+import Driver.SimStep
 /-! Driver commands of the Vm area. -/
 namespace Marwood.Driver.Vm
 open Marwood Marwood.Vm
@@ -32,6 +33,7 @@ def handle (cmd : String) (args : List String) : Option String :=
       else if bs.any (· == 0) then none
       else pure ("ok " ++ " ".intercalate (slices (traceMachine k (kind == "h")) bs 0))
   | "step", args => VmStep.handleStep args
+  | "simstep", args => SimStep.handle args
   | "errstate", [cap] => do
       let cap ← cap.toNat?
       -- an arbitrary mid-evaluation state with that stack capacity, through the error epilogue
